@@ -585,6 +585,66 @@ static void do_edprobe (void)
   c13_ip->iflags &= ~CMD_IN_BUF;
 }
 
+/* `xprobe`: small-scope exhaustive run of the real cmd_in_buf / first_cmd_in_buf / next_cmd_in_buf: every buffer
+ * content over the alphabet {NUL, 'a'} of length L <= 5 (followed by one NUL and 0xA5 garbage), every
+ * text_start <= text_end <= L (bytes between text_end and L are stale data), line mode and SINGLE_CHAR.  One line each:
+ *   x <single> <L> <bits> <start> <end> <cmd_in_buf> <ret+1> <start'> <end'> <text'[0..8) code> <strlen(ret)> <start''> <end''> <text''[0..8) code>
+ * (ret = offset returned by first_cmd_in_buf, 0 = NULL; the last four belong to next_cmd_in_buf, called when ret != NULL
+ * as get_user_command does; text codes are base-4 numbers, digit 0 = NUL, 1 = 'a', 2 = 0xA5, 3 = anything else). */
+static unsigned long x_code (const char *t)
+{
+  unsigned long c = 0;
+  for (int i = 7; i >= 0; i--)
+    {
+      unsigned char b = (unsigned char) t[i];
+      c = c * 4 + (b == 0 ? 0 : b == 'a' ? 1 : b == 0xA5 ? 2 : 3);
+    }
+  return c;
+}
+
+static void x_setup (interactive_t *ip, int single, int L, int bits, int st, int en)
+{
+  memset (ip->text, 0xA5, 16);
+  for (int i = 0; i < L; i++)
+    ip->text[i] = (bits >> i) & 1 ? 'a' : 0;
+  ip->text[L] = 0;
+  ip->text_start = st;
+  ip->text_end = en;
+  ip->iflags = single ? SINGLE_CHAR : 0;
+}
+
+static void do_xprobe (void)
+{
+  interactive_t *ip = c13_ip;
+  for (int single = 0; single < 2; single++)
+    for (int L = 0; L <= 5; L++)
+      for (int bits = 0; bits < (1 << L); bits++)
+        for (int en = 0; en <= L; en++)
+          for (int st = 0; st <= en; st++)
+            {
+              x_setup (ip, single, L, bits, st, en);
+              int cib = cmd_in_buf (ip);
+              x_setup (ip, single, L, bits, st, en);
+              char *ret = first_cmd_in_buf (ip);
+              long s1 = (long) ip->text_start, e1 = (long) ip->text_end;
+              unsigned long t1 = x_code (ip->text), t2 = 0;
+              long n = 0, s2 = 0, e2 = 0;
+              if (ret)
+                {
+                  n = (long) strlen (ret);
+                  next_cmd_in_buf (ip);
+                  s2 = (long) ip->text_start;
+                  e2 = (long) ip->text_end;
+                  t2 = x_code (ip->text);
+                }
+              vh_out ("x %d %d %d %d %d %d %ld %ld %ld %lu %ld %ld %ld %lu", single, L, bits, st, en, cib,
+                      ret ? (long) (ret - ip->text) + 1 : 0L, s1, e1, t1, n, s2, e2, t2);
+            }
+  ip->text_start = ip->text_end = 0;
+  ip->text[0] = 0;
+  ip->iflags = 0;
+}
+
 static int c13_cmd (char *line)
 {
   if (!strncmp (line, "port ", 5))
@@ -616,6 +676,11 @@ static int c13_cmd (char *line)
   if (!alive ())		/* connection closed earlier: nothing is executed any more */
     return !strncmp (line, "getchar", 7) || !strncmp (line, "inputto", 7) || !strcmp (line, "serve") || !strcmp (line, "iflag single") || !strcmp (line, "iflag line") || !strcmp (line, "read") || !strncmp (line, "chunk ", 6)
       || !strcmp (line, "extract") || !strcmp (line, "drain") || !strcmp (line, "finish") || !strncmp (line, "line ", 5);
+  if (!strcmp (line, "xprobe"))
+    {
+      do_xprobe ();
+      return 1;
+    }
   if (!strcmp (line, "edprobe"))
     {
       do_edprobe ();
